@@ -58,7 +58,9 @@ pub fn run(case: &Value, ctx: &Ctx) -> Outcome {
     ];
     if hist.len() == 1 {
         let pool = [-0.0, 5e-324, -2.5e-310, 1e300, -1e300, 1.0 / 3.0, 123456.789, f64::MAX / 4.0];
-        inputs.push(("special", (0..n).map(|p| pool[(p * 7 + 3) % pool.len()]).collect(), 0.0));
+        // not bit-exact: averaging a self-mirrored diagonal cell as 0.5*x + 0.5*x underflows for the
+        // smallest subnormals; that is rounding, not a wrong partner or weight
+        inputs.push(("special", (0..n).map(|p| pool[(p * 7 + 3) % pool.len()]).collect(), 1e-15));
     }
 
     for (fname, fill) in FILLS {
